@@ -294,7 +294,8 @@ Definition table (s : session) : list (option (N * role)) := map slot_view (s_ex
 
 Lemma session_post_recv_fields s m now s' r :
   session_post_recv s m now = (s', r) ->
-  s_id s' = s_id s /\ s_key s' = s_key s /\ s_enc s' = s_enc s /\ s_expired s' = s_expired s.
+  s_id s' = s_id s /\ s_key s' = s_key s /\ s_enc s' = s_enc s /\ s_expired s' = s_expired s /\
+  s_group s' = s_group s.
 Proof.
   unfold session_post_recv.
   destruct (post_recv (s_win s) (m_ctr m) (s_enc s) false) as [w' fresh].
